@@ -125,7 +125,7 @@ def write_replay(prop: str, job: dict, cres: dict, v: dict) -> str:
     single = dict(job)
     single["configs"] = [c for c in job["configs"]
                          if c["traits"] == cres["traits"] and c["inp"] == cres["inp"] and c["out"] == cres["out"]][:1]
-    body = {"property": prop, "job": single, "violation": {k: v[k] for k in v if k not in ("before", "after")},
+    body = {"property": prop, "job": single, "violation": {k: v[k] for k in v if k not in ("before", "after", "bad_aux")},
             "stage_before": v.get("before"), "stage_after": v.get("after"), "result": cres.get("result_text")}
     fp = h(json.dumps(body["job"], sort_keys=True) + v.get("kind", ""))[:12]
     d = os.path.join(VERIF, "replays", prop)
@@ -142,6 +142,7 @@ def finish(prop: str, tier: str, seed: int, agg: Aggregate, t0: float, rule: str
     """match findings, print verdict lines, write evidence; returns exit code"""
     known = fnd.load(prop)
     matched: Counter = Counter()
+    simplest: dict = {}
     unmatched = []
     for job, cres, v in agg.violations:
         ent = fnd.match(known, prop, job, cres, v)
@@ -149,6 +150,14 @@ def finish(prop: str, tier: str, seed: int, agg: Aggregate, t0: float, rule: str
             unmatched.append((job, cres, v))
         else:
             matched[ent["id"]] += 1
+            key = (len(job["prog"]), job["prog"])
+            if ent["id"] not in simplest or key < simplest[ent["id"]][0]:
+                simplest[ent["id"]] = (key, job, cres, v)
+    if os.environ.get("VT_SAVE_KNOWN") == "1":  # authoring aid: refresh the committed example input of each finding
+        for fid, (_, job, cres, v) in simplest.items():
+            path = write_replay(prop, job, cres, v)
+            os.makedirs(os.path.join(VERIF, "findings"), exist_ok=True)
+            os.replace(path, os.path.join(VERIF, "findings", f"{prop}-{fid}.json"))
     code = 0
     if agg.harness_errors:
         for job, err in agg.harness_errors[:3]:
